@@ -39,7 +39,7 @@ func TestOpenAPI(t *testing.T) {
 	n := rt.EnvInt("VERIF_CHECKS", 32)
 	seed := rt.EnvInt("VERIF_SEED", 1)
 	sess, built := rt.Prepare(t, "c07", rt.Options{Profile: gen.Routes(), N: n, Seed: seed, Keep: keep, AvoidIfOpen: []string{"C07-exclusive-bounds-as-numbers", "C07-openapi2-response-header-go-type-names", "C07-uint32-documented-as-int32", "C07-yaml-drops-leading-newline-in-description"},
-		Extra: []*m.Design{gen.ParamMatrix(), gen.VerbMatrix(), gen.StreamMatrix(), gen.MapParamsMatrix(), gen.WildcardMatrix(), gen.InheritMatrix()}})
+		Extra: []*m.Design{gen.ParamMatrix(), gen.VerbMatrix(), gen.StreamMatrix(), gen.MapParamsMatrix(), gen.WildcardMatrix(), gen.InheritMatrix(), gen.RespCookieMatrix()}})
 	defer sess.Close()
 	defer rt.CloseAll(built)
 	if len(built) == 0 {
